@@ -152,7 +152,7 @@ def rule_R05_4(ctx):
                        ("RangeIndex", ["List"])):
         found = 0
         for bb, i, pl, kd, aops, sp in f.aggregates("std::result::Result", "Ok"):
-            if pl[0] != 0 or {t[0] for t in vf.at(bb)} != {arm}:
+            if pl[0] not in f.return_locals() or {t[0] for t in vf.at(bb)} != {arm}:
                 continue
             for k in kinds:
                 pi = (F_v, ("d", k), ("f", 0, VALUE, k))
@@ -187,7 +187,7 @@ def rule_R05_4(ctx):
         tup = ("Sum", "List", "List")
         n_ret = 0
         for bb, i, pl, kd, aops, sp in of.aggregates("std::result::Result", "Ok"):
-            if pl[0] != 0 or tup not in pt.vf.at(bb) or len(pt.vf.at(bb)) > 3:
+            if pl[0] not in of.return_locals() or tup not in pt.vf.at(bb) or len(pt.vf.at(bb)) > 3:
                 continue
             n_ret += 1
             pi = (("d", "List"), ("f", 0, VALUE, "List"))
